@@ -104,7 +104,8 @@ func gridItem(id int, s txSpec, placement string) *item {
 	}
 	short := len(p) < 52
 	if !short {
-		short = new(big.Int).SetBytes(p[:32]).Uint64()+32 < 52
+		l := new(big.Int).SetBytes(p[:32]).Uint64()
+		short = l+32 < 52 || l+32 >= 1<<63
 	}
 	it.risky = s.R == "fe" && executes && short
 	return it
@@ -617,7 +618,7 @@ func main() {
 		"samples":                              d.samples.List(),
 		"rule": "base state: harness genesis (DefaultGenesis + one sender per case funded 1e24 wei with nonce 1, an EOA with 1000 wei) + one block deploying the Store and Loop fixtures and a KV put. " +
 			"Dimensions: recipient R = {contract creation, precompiles 0x01..0x08, AdminOP precompile 0xfe, admin contract 0x02000000, funded EOA, non-existent address, Store contract, Loop contract, self} (16); " +
-			"payload P = {empty, 1 byte, 31/32/33/51/52 pattern bytes, 52 zero bytes, KV marker only, KV marker + bad RLP, valid KV, KV with 257-byte key, KV with 4097-byte value, Store.set call, Store.fail (reverting) call, spin code 5b600056, admin-op calldata accepted by the callback, admin-op calldata refused} (18); " +
+			"payload P = {empty, 1 byte, 31/32/33/51/52 pattern bytes, 52 zero bytes, 52 bytes with first word 2^63, KV marker only, KV marker + bad RLP, valid KV, KV with 257-byte key, KV with 4097-byte value, Store.set call, Store.fail (reverting) call, spin code 5b600056, admin-op calldata accepted by the callback, admin-op calldata refused} (19); " +
 			"nonce N = {cur-1, cur, cur+1}; gas limit G = {0, 1, 10^7, 2^64-1}; gas price Pr = {0, 1, 2^256-1}; value V = {0, balance, balance+1}; signature S = {valid, v flipped (a valid signature of another address), v=29, r=0, high-s twin, EIP-155 chain 1, EIP-155 chain 9}. " +
 			"Thorough enumerates, all other dimensions at the default (EOA, empty, cur, 10^7, 0, 0, valid): A = R x P x N (Loop recipient restricted to P in {empty, set, kv, b52}); B = R x G x Pr x V; C = S x N x {empty, kv, set} x {create, 0xfe, Store, EOA, self}; D = {Store, 0xfe, create} x P x G x Pr; E = {Store, 0xfe, create, EOA} x P x V; F = S x R and S x P(to Store); G' = {Store, EOA, create, 0xfe} x N x G x Pr x V; duplicates removed; of the combinations that make the interpreter spin to its 10^8-gas budget (~0.6 s each) only a fixed subset is kept. " +
 			"Quick enumerates A with N != cur only for P in {empty, kv, set} and the Loop recipient only with P in {empty, kv}; B without G=0, Pr=max, V=balance; C for P in {kv, set} and R in {0xfe, Store, self}; F = S x R. " +
